@@ -1,4 +1,4 @@
-(** C16 - why the tab model (Tabs.v) may treat every call of its alphabet as ONE atomic step.
+(** C16 - why the tab model (Tabs.v) may treat every RUST CALL behind its alphabet as ONE atomic step.
     [Tabs.step] reads the bar's tab width, expands / stores a text or a style and renders, and
     nothing else happens in between.  Other threads may hold clones of the handle, so on the real
     code this is sound only if each call does "read the width - build the TabExpandedString -
@@ -14,7 +14,10 @@ From IndModel Require Tabs.
 From Coq Require Import String.
 Local Open Scope string_scope.
 
-(** the Rust methods an op of the C16 alphabet stands for (Tabs.v [op]; harness c16.rs) *)
+(** the Rust methods an op of the C16 alphabet stands for (Tabs.v [op]; harness c16.rs).
+    [SetStyleDerived] is a SEQUENCE of two calls (style(), then set_style or with_style): the
+    statement below is per call, such an op is not atomic as a whole; [SetStyleNew],
+    [FinishUsingStyle], [Tick] list alternatives, each one call on the bar. *)
 Definition c16_call (o : Tabs.op) : list string :=
   match o with
   | Tabs.SetTabWidth _ => ["ProgressBar::set_tab_width"]
